@@ -97,6 +97,7 @@ class MemWatchdog(threading.Thread):
         self.stop = False
         self.killed = []
         self.peak_kb = 0
+        self.limited = set()
 
     def run(self):
         while not self.stop:
@@ -111,6 +112,15 @@ class MemWatchdog(threading.Thread):
                     pid, rss, args = parts
                     if self.marker in args and (args.startswith("cbmc") or "/cbmc " in args or " cbmc " in args):
                         rss = int(rss)
+                        if pid not in self.limited:
+                            # hard address-space cap as well: CBMC can allocate tens of GB in one burst
+                            self.limited.add(pid)
+                            try:
+                                import resource
+                                cap = (MEM_CAP_KB + 2 * 1024 * 1024) * 1024
+                                resource.prlimit(int(pid), resource.RLIMIT_AS, (cap, cap))
+                            except Exception:
+                                pass
                         self.peak_kb = max(self.peak_kb, rss)
                         if rss > MEM_CAP_KB:
                             try:
@@ -120,7 +130,7 @@ class MemWatchdog(threading.Thread):
                                 pass
             except Exception:
                 pass
-            time.sleep(2)
+            time.sleep(0.5)
 
 
 def snapshot(scratch):
@@ -152,6 +162,22 @@ def seed_target(ws_target, kind):
         rc = subprocess.call(["cp", "-a", cache, ws_target])
         return rc == 0
     return False
+
+
+BUCKETS = [4, 6, 8, 12, 16, 24, 36, 48, 64, 96, 128]
+
+
+def bucket(b):
+    """Per-loop bounds are rounded up to a few classes so that instances with similar
+    needs share one cargo-kani invocation (the unwindset is a per-invocation option)."""
+    for x in BUCKETS:
+        if b <= x:
+            return x
+    return b
+
+
+def unwind_signature(i):
+    return tuple(sorted((f, rx, bucket(b)) for (f, rx, b) in i.unwindset))
 
 
 def discover_unwindset(ws, scratch, pkg, insts):
@@ -186,7 +212,7 @@ def discover_unwindset(ws, scratch, pkg, insts):
     for i in need:
         for (fsuf, rx, b) in i.unwindset:
             key = (fsuf, rx)
-            bounds[key] = max(bounds.get(key, 0), b)
+            bounds[key] = max(bounds.get(key, 0), bucket(b))
     parts, notes = [], []
     for (fsuf, rx), b in sorted(bounds.items()):
         hit = 0
@@ -227,6 +253,8 @@ def run_kani(ws, scratch, pkg, insts, tag, extra_args=(), playback=False, jobs=N
     feats = sorted({f for i in insts for f in i.features})
     if feats:
         cmd += ["--features", ",".join(feats)]
+    if any("kani::stub" in a for i in insts for a in i.attrs):
+        cmd += ["-Z", "stubbing"]
     if unwindset:
         cmd += ["--cbmc-args", "--unwindset", unwindset]  # must be the last flag
     logf = os.path.join(scratch, "kani-%s.log" % tag)
@@ -407,20 +435,23 @@ def body(args, pid, P, seed, scratch, t_start):
     compile_errors = []
     groups = []
     for i in insts:
-        key = (i.pkg, tuple(sorted(i.features)))
+        key = (i.pkg, tuple(sorted(i.features)), unwind_signature(i), any("kani::stub" in a for a in i.attrs))
         if key not in groups:
             groups.append(key)
     kani_wall = 0.0
     unwind_notes = []
     unwindsets = {}
-    for (pkg, feats) in groups:
-        pin = [i for i in insts if i.pkg == pkg and tuple(sorted(i.features)) == feats]
-        tag = pkg + ("-" + "-".join(f.replace("/", "_") for f in feats) if feats else "")
+    for gi, (pkg, feats, usig, stubbed) in enumerate(groups):
+        pin = [i for i in insts if i.pkg == pkg and tuple(sorted(i.features)) == feats and unwind_signature(i) == usig
+               and any("kani::stub" in a for a in i.attrs) == stubbed]
+        tag = "%s-g%d" % (pkg, gi) + ("-" + "-".join(f.replace("/", "_") for f in feats) if feats else "")
         # longest first so that the tail of the schedule is short
         pin.sort(key=lambda i: -i.cost)
         uws, unotes = discover_unwindset(ws, scratch, pkg, pin)
         unwind_notes.extend(unotes)
         unwindsets[pkg] = uws
+        for i in pin:
+            i.uws = uws
         rc, to, logf, tdir, dt = run_kani(ws, scratch, pkg, pin, tag, unwindset=uws)
         kani_wall += dt
         res, cerr = collect_results(tdir, pin, logf)
@@ -547,7 +578,7 @@ def handle_failures(args, pid, P, ws, scratch, failed, results, fp, unwindsets):
             continue
         budget -= 1
         rc, to, logf, tdir, dt = run_kani(ws, scratch, inst.pkg, [inst], "pb-" + inst.name, playback=True,
-                                             unwindset=unwindsets.get(inst.pkg, "") if getattr(inst, "used_unwindset", True) else "")
+                                             unwindset=getattr(inst, "uws", "") if getattr(inst, "used_unwindset", True) else "")
         txt = open(logf, errors="replace").read()
         pbs = kani_parse.parse_playback(txt)
         if not pbs:
